@@ -156,6 +156,13 @@ func c14Run(sc *Scenario, st *Stats) []Violation {
 			}
 			continue
 		}
+		// a call that fails hands back nothing of its own: the caller's return-data buffer must
+		// hold exactly what the host returned, and the host returned no data
+		noOutput := func(why string) {
+			if f.Err != "" && len(f.Out) != 0 {
+				add("C14.return", tag+"/"+why+"/output-with-error", f.ExitSeq, "call failed with %q but returned %x (the host returned no data)", f.Err, f.Out)
+			}
+		}
 		expectErr := func(why string) {
 			if f.Err == "" {
 				add("C14.malformed-accepted", tag+"/"+why, f.ExitSeq, "payload %x (%s) was accepted without error", f.In, why)
@@ -166,6 +173,7 @@ func c14Run(sc *Scenario, st *Stats) []Violation {
 			if f.Err != "" && returned != 0 {
 				add("C14.gas", tag+"/error-gas", f.ExitSeq, "failed precompile call returned %d gas", returned)
 			}
+			noOutput(why)
 		}
 		expectOK := func(wantOut []byte) {
 			if f.Err != "" {
@@ -198,6 +206,7 @@ func c14Run(sc *Scenario, st *Stats) []Violation {
 				if f.Err != errCtxStore.Error() || returned != 0 {
 					add("C14.hosterr", tag, f.ExitSeq, "host callback failed; frame error %q, returned gas %d", f.Err, returned)
 				}
+				noOutput("host-error")
 				continue
 			}
 			want := model[storeKey(cb.From, string(cb.Key))]
@@ -227,6 +236,7 @@ func c14Run(sc *Scenario, st *Stats) []Violation {
 				if f.Err != errCtxStore.Error() || returned != 0 {
 					add("C14.hosterr", tag, f.ExitSeq, "host callback failed; frame error %q, returned gas %d", f.Err, returned)
 				}
+				noOutput("host-error")
 				continue
 			}
 			expectOK(common.BytesToAddress(f.In[12:]).Hash().Bytes())
@@ -264,6 +274,7 @@ func c14Run(sc *Scenario, st *Stats) []Violation {
 				if f.Err != errCtxStore.Error() || returned != 0 {
 					add("C14.hosterr", tag, f.ExitSeq, "host callback failed; frame error %q, returned gas %d", f.Err, returned)
 				}
+				noOutput("host-error")
 				continue
 			}
 			model[storeKey(cb.From, string(cb.Key))] = cp(cb.Val)
